@@ -82,6 +82,10 @@ def handleTopo : List String → String
     match parseITop cs rs as bs with
     | some t => let m := mask.toList.map (· == '1'); showITop (isubset t (fun i => m.getD i false))
     | none => "bad-op"
+  | ["itopsubsetl", cs, rs, as, bs, idx] =>
+    match parseITop cs rs as bs, (if idx == "=" then some [] else (idx.splitOn ",").mapM (·.toNat?)) with
+    | some t, some l => showITop (isubsetL t l)
+    | _, _ => "bad-op"
   | ["itopjoin", cs, rs, as, bs, cs2, rs2, as2, bs2, k] =>
     match parseITop cs rs as bs, parseITop cs2 rs2 as2 bs2 with
     | some a, some b => showITop (ijoin a b (k == "1"))
